@@ -92,6 +92,14 @@ def run(ctx):
     traces = read_traces(sorted(glob.glob(prefix + ".*.ndjson")))
     if len(traces) != int(s.get("traces", -1)) or len(traces) < 3000:
         raise Infra("sequential driver produced %d traces, summary says %s" % (len(traces), s.get("traces")))
+    # ---- listings that move (pool announcement, pool removal, confirmation) between the calls
+    rm = ctx.tlc_design("wallet/KeeperGen", "cfg/KeeperGen.moves.cfg", timeout=1700, tag="gen-moves", heap="8g", workers=8)
+    mprefix = os.path.join(ctx.work, "moves")
+    hm = ctx.harness([b, "seq", rm.path, str(rm.nexports), mprefix], timeout=1700)
+    mtraces = read_traces(sorted(glob.glob(mprefix + ".*.ndjson")))
+    if len(mtraces) != int(hm["summary"].get("traces", -1)) or len(mtraces) < 1000:
+        raise Infra("moving-listing driver produced %d traces, summary says %s" % (len(mtraces), hm["summary"].get("traces")))
+    traces = traces + mtraces
     counts = {}
     # ---- concurrent
     nconc = 200 if quick else 3000
@@ -131,7 +139,7 @@ def run(ctx):
         if len(rej) != 3:
             raise Infra("negative control: %d of 3 corrupted traces were accepted by TraceKeeper.tla" % (3 - len(rej)))
     ctx.finish("model_checking", dict(
-        states=r.distinct + st1 + st2, transitions=r.generated,
+        states=r.distinct + rm.distinct + st1 + st2, transitions=r.generated + rm.generated, moving_listing_traces=len(mtraces),
         traces_validated_against_impl=len(traces) + len(ctraces),
         samples=[{"sequential_trace": traces[len(traces) // 2]}] + [{"concurrent_trace": x} for x in hc["samples"][:1]],
         sequential_traces=len(traces), sequential_accepted=len(acc1), sequential_events=int(s.get("events", 0)),
